@@ -33,12 +33,15 @@ MANIFEST = dict(
          'descriptor handles, states are never removed, a rejected SetContextState changes nothing. The model is compared '
          'after every operation with the context_states table of a real provider driven through set_location and the '
          'SetContextState operation (loop-back consumer or in-process), and the property is evaluated directly on the '
-         'table and on the EpisodicContextReports.',
+         'table and on the EpisodicContextReports. Atomicity of version read + commit (the model step) is tied by a generated '
+         'lock trace (Generated/ContextLocks.lean: every mdib_version read of the operation thread holds the transaction lock) '
+         'and by a forced schedule (open metric transaction while the operation starts).',
     note='Trusted: uuid4 freshness (counter), time as an opaque clock, descriptors static during a history, '
          'ContextStateTransaction as exercised through these two entry points only.',
     ref='5 C10')
 DRIVERS = ['drv_c10']
-RULE = ('one case = start table + operation list (set_location / SetContextState with 0-4 proposals); distinct by the canonical '
+RULE = ('one case = start table + operation list (set_location / SetContextState with 0-4 proposals, some started while another '
+        'transaction is open); distinct by the canonical '
         'case; non-trivial = at least one committed association change and at least one rejected operation or multi-proposal call')
 TRUSTED = ['uuid4 freshness: modelled as a counter above all handles of the MDIB',
            'time.time modelled as a clock that the harness advances once per operation',
